@@ -8,3 +8,6 @@ import RustCcModel.Properties.C05
 #print axioms RustCc.C05.finalize_only_alive
 #print axioms RustCc.C05.no_finalize_after_drop
 #print axioms RustCc.C05.dropCc_sets_flag_before_call
+#print axioms RustCc.C05.finalize_at_most_once_unless_rearmed
+#print axioms RustCc.C05.finalize_at_most_once
+#print axioms RustCc.C05.only_finalize_again_rearms
